@@ -51,7 +51,13 @@ def execute(acc, case):
             node = sc.make_node()
             # ---------------- reach the life-cycle point
             if cause == "refused":
+                sc.client_start_in_task = True
+                if case.get("park") is not None:
+                    # the thread inside start() is descheduled at its k-th line while the state machine it has just started
+                    # tests the connection, finds it refused and closes the association
+                    s.parks.append({"task": "starter", "nth": case["park"], "release": lambda: sc.node._association is not None and sc.node._association.transport is None and sc.state() == "Closed", "timeout": 1.0})
                 sc.start_node()         # nobody listens on the peer address
+                s.run_until(lambda: sc.starter.done, 10.0, "start-returns")
             else:
                 if role == "client":
                     sc.listen()
@@ -150,6 +156,10 @@ def execute(acc, case):
                 d = s.deaths[0]
                 acc.violation("task-died:%s:%s" % (d["task"].replace("client_", "").replace("server_", ""), d["type"]),
                               "%s died with %s (%s): %s" % (d["task"], d["exc"], tag, d["traceback"][-400:]), wit)
+                return
+            if cause == "refused" and isinstance(sc.start_result, BaseException) and not type(sc.start_result).__module__.startswith("bromelia"):
+                acc.violation("start-raises-%s-on-refused-connection" % type(sc.start_result).__name__,
+                              "start() raised %r to the application while the connection was being refused" % (sc.start_result,), wit)
                 return
             if sc.state() != "Closed":
                 acc.violation("not-closed:%s" % tag, "state %s %.1f virtual s after %s" % (sc.state(), s.now - t_cause, tag), wit)
@@ -261,6 +271,9 @@ def main(tier, seed):
             for role in ("client", "server"):
                 cases.append({"seed": seed * 7919 + len(cases), "cause": cause, "point": "consumer-blocked", "role": role, "strategy": "rw",
                               "p": 0.02, "transport": "TCP", "dpr_cause": nth % 3 if cause == "peer-dpr" else 0, "park": nth})
+    for nth in range(0, 130 if q else 160):
+        cases.append({"seed": seed * 7919 + len(cases), "cause": "refused", "point": "during-connect", "role": "client", "strategy": "rw", "p": 0.02,
+                      "transport": "TCP", "park": nth})
     rng.shuffle(cases)
     nb = 16 if q else 64
     batches = [{"cases": cases[i::nb]} for i in range(nb)]
